@@ -240,9 +240,7 @@ both_families! {
 			let m0 = Model { abs: pabs, segs: psegs.clone(), after_authority };
 			let outcomes = m0.apply_all(op, quirk);
 			for m in outcomes {
-				let ok = if matches!(op, POp::Normalize) {
-					norm::accept_textual(view, m.abs, &m.segs) || (m.segs.is_empty() && vsegs.is_empty())
-				} else {
+				let ok = {
 					let abs_ok = vabs == m.abs || (m.segs.is_empty() && vsegs.is_empty() && after_authority);
 					// an empty path directly after an authority: pop may leave it alone or give "/.."
 					let pop_after_authority = matches!(op, POp::Pop) && after_authority && psegs.is_empty() && (vsegs.is_empty() || view == "/..");
@@ -367,6 +365,18 @@ both_families! {
 			let c2 = split(&fin2);
 			ensure!(same_lists(&c1.path, &c2.path) && c2.scheme == c0.scheme && c2.authority == c0.authority && c2.query == c0.query && c2.fragment == c0.fragment,
 				"handle-reuse-differs", "{ctx}: ops {:?} through one handle give {:?}, through a fresh handle per op {:?}", $ops, fin, fin2);
+			// the same vector on a stand-alone buffer holding the same path text: same segment list
+			// (skipped when the embedded path is the empty path after an authority, which becomes absolute)
+			if !after_authority || c0.path.starts_with('/') {
+				if let Ok(mut pb) = PathBuf::new(c0.path.as_str().into()) {
+					let r = guard(|| { let mut h = pb.as_path_mut(); for op in $ops.iter() { apply(&mut h, op) } });
+					if let Err(p) = r {
+						fail!(format!("panic-standalone-twin:{}", p.loc), "{ctx}: the same ops {:?} on a stand-alone copy of the path panicked at {}: {}", $ops, p.loc, p.msg);
+					}
+					ensure!(same_lists(&c1.path, pb.as_str()), "standalone-vs-embedded", "{ctx}: ops {:?} give the path {:?} in place but {:?} on a stand-alone buffer with the same initial path {:?}", $ops, c1.path, pb.as_str(), c0.path);
+					$cx.class("standalone-twin");
+				}
+			}
 			Ok(true)
 		}};
 	}
